@@ -89,3 +89,8 @@ package xpub
 //@   before call:delete#1 assert arg0 == s.pipes && held(s.Mutex)
 //@   before call:close#1 assert arg0 == p.closeq
 //@   ensures called("delete")
+
+// ---- round 8: every subscriber pipe gets a non-blocking offer of the message ----
+//@ func (*socket).SendMsg
+//@   before select#1 assert selsends(p.sendq) && held(s.Mutex)
+//@   loop 1 ensures called_since("loop1:head", "Clone") && sel("select#1") != -2
